@@ -185,6 +185,13 @@ func intrinsicTable() map[string]func(in *Interp, fr *frame, args []Value) Value
 	m["verifImgWrites"] = func(in *Interp, fr *frame, args []Value) Value {
 		return BV(wordBits, uint64(in.path.imgWrites))
 	}
+	m["verifImgBytesWritten"] = func(in *Interp, fr *frame, args []Value) Value {
+		return BV(wordBits, uint64(len(in.path.imgLog)))
+	}
+	m["verifImgWriteAddr"] = func(in *Interp, fr *frame, args []Value) Value {
+		i := argInt(args[0])
+		return Resize(in.path.imgLog[i], wordBits, false)
+	}
 	m["verifSliceAddr"] = func(in *Interp, fr *frame, args []Value) Value {
 		s := args[0].(Slice)
 		if !s.img {
